@@ -1,5 +1,5 @@
 import os
-LOOPS = {r'nameOf': 26, r'RK3Sym|R3Sym|^h_|makeOffer': 5, r'SaslHtMechanism10fromString': 9,
+LOOPS = {r'nameOf': 26, r'RK3Sym|R3Sym|^h_|makeOffer': 5, r'SaslHtMechanism10fromString': 9, r'__find_uniq_type_in_pack': 10,
          r'QListI7QStringE13node_destruct': 8, r'QListI7QStringE9node_copy': 8}
 def I(name, entry, **kw):
     d = dict(name=name, entry=entry, unwind=4, timeout_s=300, mem_gb=6, tiers=('quick', 'thorough'), model_loop_bound=26, bound=''); d.update(kw)
